@@ -1,7 +1,10 @@
 package checks
 
 import (
+	"encoding/json"
 	"fmt"
+
+	"pgregory.net/rapid"
 
 	"verif/harness/core"
 	"verif/harness/schema"
@@ -10,19 +13,21 @@ import (
 // runtimeCheck describes an outer check that builds batches of generated packages and runs
 // inner properties against the emitted code.
 type runtimeCheck struct {
-	ID          string
-	Profile     func(avoid map[string]string) *schema.Profile
-	Inner       []string
-	Variant     string
-	Param       string
-	Race        bool
-	Batches     [2]int // quick, thorough
-	PerBatch    [2]int
-	Cases       [2]int
-	Rule        string
-	Assumptions []string
-	Prefix      string
-	Extra       map[string]string
+	ID                string
+	Profile           func(avoid map[string]string) *schema.Profile
+	Inner             []string
+	Variant           string
+	Param             string
+	Race              bool
+	Batches           [2]int // quick, thorough
+	PerBatch          [2]int
+	Cases             [2]int
+	Rule              string
+	Assumptions       []string
+	Prefix            string
+	Extra             map[string]string
+	Filter            func(s *schema.Schema, avoid map[string]string) bool // rejection filter on drawn schemas
+	BrokenIsViolation bool                                                 // packages that do not build/vet are violations of this property
 }
 
 func (rc *runtimeCheck) run(c *core.Ctx) error {
@@ -41,7 +46,23 @@ func (rc *runtimeCheck) run(c *core.Ctx) error {
 		variant = "both"
 	}
 	for b := 0; b < batches; b++ {
-		schemas := drawSchemas(c, prof, rc.Prefix, per, b)
+		var schemas []*schema.Schema
+		if rc.Filter == nil {
+			schemas = drawSchemas(c, prof, rc.Prefix, per, b)
+		} else {
+			rejected := 0
+			for i := 0; len(schemas) < per && i < per*60; i++ {
+				id := fmt.Sprintf("%s%04d", rc.Prefix, len(schemas))
+				g := rapid.Custom(func(t *rapid.T) *schema.Schema { return schema.Generate(t, prof, id) })
+				s := g.Example(c.SubSeed(b*100000 + 50000 + i))
+				if rc.Filter(s, avoid) {
+					schemas = append(schemas, s)
+				} else {
+					rejected++
+				}
+			}
+			c.Ev.Class("generator:rejected_by_filter", rejected)
+		}
 		for _, s := range schemas {
 			countAvoided(c, s, avoid)
 		}
@@ -56,14 +77,37 @@ func (rc *runtimeCheck) run(c *core.Ctx) error {
 			return err
 		}
 		c.Ev.Coverage.Schemas += len(schemas)
+		if rc.BrokenIsViolation {
+			for _, u := range out.Broken {
+				c.Violation("build-"+u.Schema.ID, &c13Case{Property: rc.ID, Kind: "go", Variant: variant, Param: rc.Param, Schema: u.Schema, Observed: goFailure(u)},
+					fmt.Sprintf("emitted package (param %q) does not build/vet: %s", rc.Param, goFailure(u)))
+			}
+			out.Broken = nil
+		}
 		noteBroken(c, out)
+		for i, r := range out.Races {
+			c.Violation(fmt.Sprintf("data-race-%d", i), map[string]any{"property": rc.ID, "kind": "race", "report": r, "schemas": schemas},
+				"the race detector reported a data race in generated code:\n"+trunc(r, 2500))
+		}
 		reportInner(c, spec, out, "")
 	}
 	return nil
 }
 
 func registerRuntime(rc *runtimeCheck) {
-	register(&Check{ID: rc.ID, Run: rc.run, Replay: replayInner})
+	register(&Check{ID: rc.ID, Run: rc.run, Replay: replayAny})
+}
+
+// replayAny dispatches a replay document by its kind ("inner" or "go"/"ts" build cases).
+func replayAny(c *core.Ctx, doc json.RawMessage) (bool, string, error) {
+	var k struct {
+		Kind string `json:"kind"`
+	}
+	_ = json.Unmarshal(doc, &k)
+	if k.Kind == "go" || k.Kind == "ts" {
+		return replayC13(c, doc)
+	}
+	return replayInner(c, doc)
 }
 
 var commonAssumptions = []string{
@@ -89,6 +133,22 @@ func init() {
 		Batches: [2]int{1, 10}, PerBatch: [2]int{48, 64}, Cases: [2]int{250, 800},
 		Rule:        "cases = (schema with buf.validate rules on top-level, nested, repeated and map-value fields, required headers, custom *Error messages) x RPC x error source {header violation, rule violation, plain error, sebuf Error, wrapped sebuf Error, handler-returned ValidationError, custom *Error message (+wrapped)} x content type {JSON, binary} x error hook {none, returns nil, returns message, sets status, sets header, writes body, combinations}; the call goes through the generated Go client. Oracle = documented error contract E: status, hook header, body decoded in the request's content type (message equality / violation field names = dotted proto paths or header names computed by the reference validator), and client error type (errors.As ValidationError / Error, or an error carrying status or body). Non-trivial = a hook is installed, binary content type, or a nested violation path; distinct by (case, wire body).",
 		Assumptions: append([]string{"rule violations come from the stand-in validator (standard-rule subset); subscripts in field paths are ignored when comparing"}, commonAssumptions...)})
+	registerRuntime(&runtimeCheck{ID: "C11", Profile: schema.ProfileCodec, Inner: []string{"c11", "c11client"}, Prefix: "f",
+		Batches: [2]int{1, 12}, PerBatch: [2]int{64, 64}, Cases: [2]int{200, 1000},
+		Rule:        "server cases = (schema from the codec profile: every message shape with a custom decoder) x body-carrying RPC x structure-aware mutation of the model-encoded valid body {a field replaced by a value invalid in every accepted form (wrong JSON type, non-numeric / fractional / overflowing numbers, text invalid in the declared bytes/timestamp encoding, at depth <= 3), truncation at any offset, trailing garbage, null/array/scalar at top level, nesting to 200000, invalid UTF-8, duplicate keys, 1e999999, random bytes, random / truncated protobuf wire data} x content types incl. parameters, unknown and empty. Oracle: no panic, status in {200,400}, a 400 body is a ValidationError with >= 1 violation and no dispatch, bodies invalid in every accepted form are never dispatched, dispatched binary bodies equal the reference decoding, latency within 100x the unit's median (re-checked). Client cases = arbitrary (status, content type, body kind) served by a stub transport to the generated Go client: returns value or error, never panics, never hangs (20 s), never reports success for status >= 400 or a transport failure. Non-trivial = wrong-type mutation or a message with a custom decoder (server); any non-valid body (client); distinct by case text.",
+		Assumptions: append([]string{"the deciding search is rapid's structure-aware mutation in both tiers; native coverage-guided fuzzing of generated packages is not registered (per-run packages have no stable corpus)", "duplicate keys, huge numbers and invalid UTF-8 are only judged for clean rejection or faithful dispatch, not for a fixed verdict"}, commonAssumptions...)})
+	registerRuntime(&runtimeCheck{ID: "C17", Profile: schema.ProfileConcurrency, Inner: []string{"c17"}, Prefix: "r", Race: true,
+		Batches: [2]int{1, 8}, PerBatch: [2]int{12, 24}, Cases: [2]int{25, 120},
+		Rule:        "cases = (multi-service, multi-method schema with distinct per-route required headers and URL parameters) x random multiset of 10-80 calls (route, request, per-call header options present/absent, content type) x parallelism in {1,2,4,8,16,32}; calls run concurrently through shared generated clients against one shared generated server in a binary built with -race; handlers are pure functions of the request (incl. deterministic failures). Oracle: no race detector report, and every call's response/error equals the result of the same call issued alone on a fresh server and fresh clients. Non-trivial = multiset touching >= 2 routes at parallelism >= 4; distinct by (parallelism, call list).",
+		Assumptions: append([]string{"schedules are sampled by the Go scheduler, not enumerated: a race-free run says nothing beyond the executions seen (weakest claim of the set)", "in-memory transport: the generated client/server code runs concurrently, the kernel network stack does not"}, commonAssumptions...)})
+	registerRuntime(&runtimeCheck{ID: "C20", Profile: schema.ProfileMock, Inner: []string{"c20"}, Prefix: "o", Variant: "server", Param: "generate_mock=true",
+		BrokenIsViolation: true,
+		Filter: func(s *schema.Schema, avoid map[string]string) bool {
+			return avoid["mock_unsupported_fields"] == "" || schema.MockCompilable(s)
+		},
+		Batches: [2]int{1, 10}, PerBatch: [2]int{48, 64}, Cases: [2]int{60, 300},
+		Rule:        "cases = (schema generated with generate_mock=true: response fields of the kinds/cardinalities the mock generator handles today plus every kind it skips, nested and map fields, several services, field_examples incl. unparsable entries) x RPC x valid request (JSON or binary) x repeated invocations. Oracle: the package incl. *_http_mock.pb.go builds and vets; the generated server backed by NewMock<Service>Server answers 200; the body decodes into the response type and is the documented JSON form of it; a field declaring examples holds one of the parsable ones. Non-trivial = response type with fields; distinct by (request, response body).",
+		Assumptions: append([]string{"while KF-C20-1 is open, schemas whose response types use field shapes the mock generator cannot compile are rejected by the generator filter (counted in classes) and demonstrated by the pinned replay", "validation of mock responses against the OpenAPI response schema is performed by C06's machinery on the same kind of bodies, not repeated here"}, commonAssumptions...)})
 	registerRuntime(&runtimeCheck{ID: "C01", Profile: schema.ProfileTransport, Inner: []string{"c01"}, Prefix: "t",
 		Batches: [2]int{1, 10}, PerBatch: [2]int{64, 64}, Cases: [2]int{150, 500},
 		Rule:        "cases = (schema from the transport profile: verbs, base paths, 0-3 path variables of every URL kind, query parameters, body fields of every kind/cardinality, JSON-mapping annotations) x RPC x (request value incl. reserved URL characters, non-ASCII, numeric extremes; response value) x content type {application/json, application/x-protobuf, application/octet-stream} set per client or per call x base URL with/without trailing slash. The generated Go client calls the generated Go server through an in-memory transport. Oracle: exactly one handler call of the same RPC, norm(sent)==seen, norm(returned)==received (norm only for JSON). Non-trivial = URL-bound value with reserved/non-ASCII characters or >= 9 digits, or a non-JSON content type, or an annotated body; distinct by (RPC, content type, request, response).",
